@@ -4,6 +4,7 @@ import (
 	"fmt"
 	"strconv"
 	"strings"
+	"testing/synctest"
 	"time"
 
 	"verif/fakemc"
@@ -189,4 +190,81 @@ func runC09(c *rt.Ctx) {
 		c.Trans(int64(tr))
 	}
 	c.Set("depth_bound", depth)
+	slowClientTTL(c)
+}
+
+// slowClientTTL: relative TTLs count from the command, not from the moment the client has taken
+// the reply. The client does not read for five (virtual) seconds after sending a command whose reply
+// and whose derived writes (back-fill of L1 after an L2 hit, touch of the other tier) both exist;
+// afterwards every tier that holds the key must hold it until command time + TTL.
+func slowClientTTL(c *rt.Ctx) {
+	item := 1000
+	for _, orca := range []string{"l1l2", "l1l2b"} {
+		for _, l1h := range []string{"std", "chunked"} {
+			for _, app := range []bool{false, true} {
+				for _, evicted := range []bool{true, false} {
+					for _, op := range []wire.Op{{Kind: "gat", Key: "a", TTL: 10, Opaque: 9}, {Kind: "get", Key: "a", Opaque: 9}, {Kind: "touch", Key: "a", TTL: 10, Opaque: 9},
+						{Kind: "set", Key: "a", Val: "w", TTL: 10, Opaque: 9}, {Kind: "gete", Key: "a", Opaque: 9}} {
+						for port := 0; port < 2; port++ {
+							item++
+							if !c.Mine(item) || c.Expired() {
+								continue
+							}
+							if port == 1 && orca != "l1l2b" || app && (l1h == "chunked" || orca != "l1l2b") {
+								continue
+							}
+							cfg := Cfg{Orca: orca, Lock: "none", Proto: "binary", L1H: l1h, App: app}
+							var problem string
+							InBubble(c.T, func() {
+								w := NewWorld(cfg)
+								defer w.Release()
+								s := w.Connect(port)
+								prep := w.Connect(0)
+								prep.Do(wire.Op{Kind: "set", Key: "a", Val: "v", Flags: 3, TTL: 3600, Opaque: 1})
+								prep.Hangup()
+								if evicted {
+									for _, k := range w.L1.Keys() {
+										if ck, _, ok := ownerOf(k); k == "a" || ok && ck == "a" {
+											w.L1.Evict(k)
+										}
+									}
+								}
+								t0 := uint32(time.Now().Unix())
+								want := t0 + 3600
+								if op.TTL != 0 {
+									want = t0 + op.TTL
+								}
+								s.Cli.StopReading(1)
+								s.FeedOp(op)
+								synctest.Wait()
+								time.Sleep(5 * time.Second)
+								synctest.Wait()
+								s.Cli.Unstall()
+								synctest.Wait()
+								s.Hangup()
+								for _, t := range []struct {
+									name    string
+									st      *fakemc.Store
+									chunked bool
+								}{{"L1", w.L1, l1h == "chunked"}, {"L2", w.L2, false}} {
+									for k, d := range tierDeadlines(t.st, "a", t.chunked) {
+										if d != want && problem == "" {
+											problem = fmt.Sprintf("%s entry %q expires at command time %+d s; the client asked for %+d s (it took its reply five seconds after sending the command)", t.name, k, int64(d)-int64(t0), int64(want)-int64(t0))
+										}
+									}
+								}
+							})
+							c.Eval(1)
+							c.Distinct(fmt.Sprintf("slow|%s|%s|%v|%v|%s|%d", orca, l1h, app, evicted, op.Kind, port))
+							c.Nontrivial(fmt.Sprintf("slow|%s|%s|%v|%v|%s|%d", orca, l1h, app, evicted, op.Kind, port))
+							if problem != "" {
+								c.Violation(fmt.Sprintf("C09 wrong-expiry/slow-client op=%s cfg=%s", op.Kind, cfgClass(cfg)), fmt.Sprintf("key in L2%s, port %d: %s", map[bool]string{true: " only", false: " and L1"}[evicted], port, problem),
+									map[string]interface{}{"cfg": cfg, "op": op, "evicted": evicted, "port": port})
+							}
+						}
+					}
+				}
+			}
+		}
+	}
 }
